@@ -14,10 +14,14 @@ git -C /repo worktree add -q $WT HEAD || exit 3
 cd $WT
 if ! git apply --check $PATCH 2>/dev/null; then echo "$PROP/$N: PATCH DOES NOT APPLY"; cd /; git -C /repo worktree remove --force $WT; exit 2; fi
 # where does the demo go? first line comment says the package dir; fall back to grep "package"
-PKGDIR=$(grep -m1 -oE '(copy|copied|place|put)[^\n]*' $DEMO | grep -oE '(registration|rotation|tls|types|protocol|net|storage/[a-z]+|\.)/?' | head -1)
-[ -z "$PKGDIR" ] && PKGDIR=$(grep -m1 -oE 'into [a-z/]+' $DEMO | awk '{print $2}')
+PKGDIR=${5:-}
+if [ -z "$PKGDIR" ]; then
+  PKGDIR=$(head -20 $DEMO | grep -oE '(registration|rotation|tls|types|protocol|net|storage/file|storage/inmem|storage/testing|util/[a-z]+)/' | head -1)
+  PKGDIR=${PKGDIR%/}
+  [ -z "$PKGDIR" ] && PKGDIR=.
+fi
 echo "demo package dir guess: '$PKGDIR'"
-run_demo() { (cd $WT && cp $DEMO $WT/$PKGDIR/zz_demo${N}_test.go && go test -vet=off -count=1 -timeout 10m -run . ./$PKGDIR/ 2>&1 | tail -3; rm -f $WT/$PKGDIR/zz_demo${N}_test.go); }
+run_demo() { (cd $WT && cp $DEMO $WT/$PKGDIR/zz_demo${N}_test.go && go test -vet=off -count=1 -timeout 10m -run "Demo|demo|C[0-9][0-9]|Seed" ./$PKGDIR/ 2>&1 | tail -3; rm -f $WT/$PKGDIR/zz_demo${N}_test.go); }
 echo "--- demo WITHOUT change"; run_demo | tail -2
 git apply $PATCH
 echo "--- build + full suite WITH change"; (go build ./... && go test -vet=off -count=1 -timeout 25m ./... 2>&1 | grep -v "no test files" | tail -12)
